@@ -21,6 +21,7 @@
    and for C03 (the applied events carry the decoded change)
      AckedLost        an acknowledged write is in the applied log
      NeverSubmitted   every applied change was submitted by the client
+     SnapshotContents the snapshot in a node's store, labelled idx, holds the state after the entries 1..idx
      ContentsVsLog    every live replica's final contents = the sequential map applied to the applied log *)
 EXTENDS Integers, Sequences, FiniteSets, TLC, Json
 CONSTANT TraceFile
@@ -61,6 +62,9 @@ StepM(s, c) ==
 RECURSIVE Fold(_, _, _)
 Fold(s, A, i) == IF i \notin DOMAIN A THEN (IF \E j \in DOMAIN A : j > i THEN Fold(s, A, i + 1) ELSE s)
                  ELSE Fold(StepM(s, A[i][3]), A, i + 1)
+\* the state after the entries up to index hi
+RECURSIVE FoldTo(_, _, _, _)
+FoldTo(s, A, i, hi) == IF i > hi THEN s ELSE FoldTo(IF i \in DOMAIN A THEN StepM(s, A[i][3]) ELSE s, A, i + 1, hi)
 Contents(items) == [i \in {items[j][1] : j \in 1..Len(items)} |->
                       LET j == CHOOSE j \in 1..Len(items) : items[j][1] = i IN items[j][2]]
 
@@ -130,6 +134,13 @@ Step ==
             \* judged for a node that has applied everything any node applied; a node that is still catching up when the
             \* run ends is a matter of convergence (the end event), and its dump races with its apply loop
             /\ viol' = viol \cup (IF (\E i \in DOMAIN appliedAt : i > t.applied) \/ Contents(t.items) = Fold(Empty, appliedAt, 1) THEN {} ELSE {<<l, "ContentsVsLog">>})
+            /\ UNCHANGED <<dTerm, dVote, dLast, dLog, lastApplied, appliedAt, submitted, acked>>
+       [] t.ev = "snapcontent" ->
+            \* the snapshot a node's store holds when the run ends, loaded into a fresh index: labelled idx, it holds the
+            \* state after the entries 1..idx - no more (an entry behind idx would be applied twice after a restart,
+            \* or by a follower that is sent the snapshot) and no less (RaftHost!SnapshotExact)
+            /\ viol' = viol \cup (IF t.idx > 0 /\ (\A i \in 1..t.idx : i \in DOMAIN appliedAt)
+                                      /\ Contents(t.items) # FoldTo(Empty, appliedAt, 1, t.idx) THEN {<<l, "SnapshotContents">>} ELSE {})
             /\ UNCHANGED <<dTerm, dVote, dLast, dLog, lastApplied, appliedAt, submitted, acked>>
        [] t.ev = "end" ->
             /\ viol' = viol \cup (IF t.converged = 1 THEN {} ELSE {<<l, "NoConverge">>})
